@@ -296,7 +296,20 @@ func checkC20(c *Ctx) {
 		name := sh.String()
 		// Path exploration (helpers inline; the decoders opaque): what every combination of request method and decode
 		// outcome does to the level and to the response.
-		decFn := c.Func(ZapPath, "decodePutRequest")
+		// a decoder: any function (called directly or through a function value) that yields (zapcore.Level, error)
+		isDecSig := func(sig *types.Signature) bool {
+			return sig != nil && sig.Results().Len() == 2 && strings.HasSuffix(sig.Results().At(0).Type().String(), "zapcore.Level") && sig.Results().At(1).Type().String() == "error"
+		}
+		isDecode := func(cl *ssa.Call) bool {
+			sig, _ := cl.Call.Value.Type().Underlying().(*types.Signature)
+			if cl.Call.IsInvoke() {
+				return false
+			}
+			if sc := cl.Call.StaticCallee(); sc != nil {
+				return sc.Pkg != nil && sc.Pkg.Pkg.Path() == ZapPath && isDecSig(sc.Signature)
+			}
+			return isDecSig(sig)
+		}
 		resolve := func(st *ConcState, v ssa.Value) ssa.Value {
 			v = Strip(v)
 			for k := 0; k < 12; k++ {
@@ -309,20 +322,20 @@ func checkC20(c *Ctx) {
 			return v
 		}
 		seqs, trunc := ConcPaths(sh, ConcCfg{
-			Inline: func(h *ssa.Function) bool { return h != decFn && !strings.HasPrefix(h.Name(), "decodePut") },
+			Inline: func(h *ssa.Function) bool { return !isDecSig(h.Signature) },
 			Event: func(in ssa.Instruction, st *ConcState) string {
 				call, ok := in.(*ssa.Call)
 				if !ok {
 					return ""
 				}
 				switch {
-				case IsCallTo(call, "go.uber.org/zap.decodePutRequest"):
+				case isDecode(call):
 					return "decode"
 				case IsCallTo(call, "(go.uber.org/zap.AtomicLevel).SetLevel"):
 					// the value installed is the decoder's result
 					v := resolve(st, call.Call.Args[1])
 					if ex, ok := v.(*ssa.Extract); ok && ex.Index == 0 {
-						if dc, ok := ex.Tuple.(*ssa.Call); ok && IsCallTo(dc, "go.uber.org/zap.decodePutRequest") {
+						if dc, ok := ex.Tuple.(*ssa.Call); ok && isDecode(dc) {
 							return "set(decoded)"
 						}
 					}
@@ -389,7 +402,7 @@ func checkC20(c *Ctx) {
 				}
 				x := resolve(st, bo.X)
 				if ex, ok := x.(*ssa.Extract); ok && ex.Index == 1 && IsNilConst(bo.Y) {
-					if dc, ok := ex.Tuple.(*ssa.Call); ok && IsCallTo(dc, "go.uber.org/zap.decodePutRequest") {
+					if dc, ok := ex.Tuple.(*ssa.Call); ok && isDecode(dc) {
 						if eq {
 							return "decode-ok"
 						}
@@ -467,8 +480,9 @@ func checkC20(c *Ctx) {
 			}
 		}
 	}
-	dr := c.Func(ZapPath, "decodePutRequest")
-	if c.Anchor("R20.3", "zap.decodePutRequest", dr != nil) {
+	// a dispatcher that calls the decoders itself must relay their results (when the handler picks a decoder function
+	// and calls it, there is nothing to relay)
+	if dr := c.Func(ZapPath, "decodePutRequest"); dr != nil {
 		n := 0
 		for _, r := range Returns(dr) {
 			rv := RetVals(r)
